@@ -39,9 +39,10 @@ Definition uint64_max : N := 18446744073709551615.
 Definition parse_int10 (s : bytes) : option Z :=
   let '(neg, ds) :=
     match s with
-    | 45 :: r => (true, r)      (* '-' *)
-    | 43 :: r => (false, r)     (* '+' *)
-    | _ => (false, s)
+    | [] => (false, s)
+    | c :: r => if c =? 45 then (true, r)        (* '-' *)
+                else if c =? 43 then (false, r)  (* '+' *)
+                else (false, s)
     end in
   match ds with
   | [] => None
